@@ -453,6 +453,7 @@ type PreserveSpec struct {
 	Props   []string
 	Comps   []string
 	Callees []string
+	Except  []string // functions whose own writes are the sanctioned way to change the component
 	Src     string
 }
 
@@ -834,7 +835,13 @@ func (db *SpecDB) parseSpecText(text, file, pkgPath string) error {
 				}
 				return out
 			}
-			ps := &PreserveSpec{Label: strings.TrimSpace(r[:i]), Props: props, Comps: quoted(r[i+1 : k]), Callees: quoted(r[k+8:]), Src: r}
+			tail := r[k+8:]
+			var except []string
+			if x := strings.Index(tail, " except "); x >= 0 {
+				except = quoted(tail[x+8:])
+				tail = tail[:x]
+			}
+			ps := &PreserveSpec{Label: strings.TrimSpace(r[:i]), Props: props, Comps: quoted(r[i+1 : k]), Callees: quoted(tail), Except: except, Src: r}
 			if len(ps.Comps) == 0 || len(ps.Callees) == 0 {
 				return fail("preserves: needs components and callees")
 			}
